@@ -28,7 +28,7 @@ def gen_cluster(r, opts):
     npools = opts.get("pools") or r.choice([1, 1, 2, 2, 3])
     pools = []
     for p in range(npools):
-        nworkers = opts.get("workers") or r.choice([1, 1, 2, 2, 3])
+        nworkers = opts.get("workers") or (r.choice([1, 1, 2]) if opts.get("plan") else r.choice([1, 1, 2, 2, 3]))
         if opts.get("single_worker_pools"):
             nworkers = 1
         workers = []
@@ -97,6 +97,8 @@ def gen_strategy(r, cluster, opts, feasible=True):
 
 def gen_profile(r, name, cluster, opts):
     n = r.choice([1, 1, 1, 2, 2, 3]) if not opts.get("one_strategy") else 1
+    if opts.get("plan"):
+        n = min(n, 2)
     strategies = []
     for i in range(n):
         feas = True
@@ -336,7 +338,7 @@ def gen_world(seed, profile="greedy", opts=None):
     opts.setdefault("zero_runtime", r.random() < opts.get("p_zero_runtime", 0.25))
     opts.setdefault("max_nodes", r.choice([3, 5, 8]))
     cluster = gen_cluster(r, opts)
-    ngraphs = opts.get("graphs") or r.choice([1, 1, 2, 2, 3])
+    ngraphs = opts.get("graphs") or (r.choice([1, 1, 2]) if opts.get("plan") else r.choice([1, 1, 2, 2, 3]))
     graphs, profiles = [], {}
     total_rt = 0
     flags = default_flags()
@@ -413,13 +415,42 @@ def gen_policy(r, profile, opts, flags):
                 "p_skip": r.choice([0.0, 0.1, 0.3]), "p_cancel": r.choice([0.0, 0.0, 0.05, 0.15]),
                 "p_future": r.choice([0.0, 0.2, 0.5]), "p_omit": r.choice([0.0, 0.1]),
                 "p_full": r.choice([0.0, 0.3])}
+    if profile == "plan":
+        name = opts.get("policy") or r.choice(["ILP", "ILP", "TetriSchedGurobi", "TetriSchedGurobi",
+                                                "TetriSchedCPLEX"])
+        pol = {"name": name, "runtime": 0, "lookahead": r.choice([0, 0, 2, 5, 20]),
+               "retract": r.random() < 0.4, "enforce_deadlines": r.random() < 0.6,
+               "branch_policy": r.choice(["worst", "best", "all", "max"])}
+        if name == "ILP":
+            pol["runtime"] = r.choice([0, 0, 0, 1])
+            pol["release_taskgraphs"] = r.random() < 0.4
+            pol["goal"] = r.choice(["max_goodput", "max_slack"])
+            if pol["goal"] == "max_goodput":
+                pol["enforce_deadlines"] = True
+        else:
+            pol["plan_ahead"] = r.choice([6, 8, 10, 12])
+            pol["discretization"] = r.choice([1, 1, 2, 3])
+            if name == "TetriSchedGurobi":
+                pol["release_taskgraphs"] = r.random() < 0.4
+                pol["retract"] = r.random() < 0.6
+        if opts.get("policy_opts"):
+            pol.update(opts["policy_opts"])
+        return pol
     raise ValueError(profile)
+
+
+PLAN_OPTS = {"p_batch_loader": 0, "pools": 1, "max_nodes": 3, "graphs": None, "max_invocations": 2,
+             "max_runtime": 4, "p_zero_runtime": 0.1, "p_variance": 0.2, "p_conditionals": 0.2,
+             "release_kinds": ["fixed", "fixed", "poisson", "closed_loop"], "max_conds": 1,
+             "plan": True}
 
 
 def gen_faults(r, profile, opts):
     f = {"cut": None}
     if r.random() < opts.get("p_cut", 0.15):
         f["cut"] = r.choice([1, 2, 3, 5, 8, 13, 21])
+    if profile == "plan":
+        f["solver_chaos"] = {"on": r.random() < opts.get("p_solver_chaos", 0.5), "p": 0.7}
     return f
 
 
@@ -429,8 +460,18 @@ def sanitize(world):
     fl = world["flags"]
     if pol["name"] in ("EDF", "FIFO"):
         fl["release_taskgraphs"] = False
-    if pol["name"] in GREEDY + ["Clockwork"]:
+    if pol["name"] in GREEDY + ["Clockwork", "TetriSchedGurobi", "TetriSchedCPLEX"]:
         pol["runtime"] = 0
+    if pol["name"] == "ILP":
+        pol["runtime"] = min(pol.get("runtime", 0), 1)
+        if pol.get("retract"):
+            # a retracted task may have started by the time a 1us-late decision is applied; the
+            # simulator then takes the (explicitly unimplemented) preempt/migrate path
+            pol["runtime"] = 0
+        if pol.get("goal") == "max_goodput":
+            pol["enforce_deadlines"] = True
+    if pol["name"] == "TetriSchedCPLEX":
+        fl["release_taskgraphs"] = False
     if world["faults"].get("cut"):
         world["sim"]["loop_timeout"] = world["faults"]["cut"]
     # Zeno guard (DESIGN 2.3): frequency 0 with a zero-latency scheduler may be
